@@ -53,3 +53,31 @@ fn duplicate_fd_is_rejected_without_disturbing_the_first_source() {
     el.dispatch(Duration::from_millis(20), &mut n).unwrap();
     assert_eq!(n, 2);
 }
+
+#[test]
+fn a_failed_insertion_does_not_bring_a_dead_token_back_to_life() {
+    // the slot of a removed source is reused by an insertion that fails; whatever is inserted next must get a token
+    // that differs from the removed source's, and the dead token must not act on the newcomer
+    let mut el: EventLoop<u32> = EventLoop::try_new().unwrap();
+    let h = el.handle();
+    let ta = h.insert_source(Flaky { fail: false }, |_, _, _| {}).unwrap();
+    h.remove(ta);
+    assert!(h.insert_source(Flaky { fail: true }, |_, _, _| {}).is_err());
+    let (ping, source) = calloop::ping::make_ping().unwrap();
+    let tb = h.insert_source(source, |_, _, n: &mut u32| *n += 1).unwrap();
+    assert_ne!(ta, tb, "the token of a removed source was handed out again");
+    assert!(h.disable(&ta).is_err(), "a dead token disabled the source that now lives in its slot");
+    h.remove(ta);
+    ping.ping();
+    let mut n = 0;
+    el.dispatch(Duration::from_millis(100), &mut n).unwrap();
+    assert_eq!(n, 1, "a dead token removed or disabled the source that now lives in its slot");
+    // also from a fresh loop: first ever insertion fails, the next one is unaffected
+    let el2: EventLoop<u32> = EventLoop::try_new().unwrap();
+    assert!(el2.handle().insert_source(Flaky { fail: true }, |_, _, _| {}).is_err());
+    let t1 = el2.handle().insert_source(Flaky { fail: false }, |_, _, _| {}).unwrap();
+    el2.handle().remove(t1);
+    assert!(el2.handle().insert_source(Flaky { fail: true }, |_, _, _| {}).is_err());
+    let t2 = el2.handle().insert_source(Flaky { fail: false }, |_, _, _| {}).unwrap();
+    assert_ne!(t1, t2);
+}
